@@ -13,5 +13,9 @@ theorem merge_blocks_shape_tie : Generated.C02.mergeBlocksShape = true := rfl
 theorem typed_separator_tie : Generated.C03.typedSeparator = C03.sep.toNat := rfl
 theorem typed_suffix_tie :
     Generated.C03.typedSuffixes.map String.toList = ['s', 'i', 'b', 'A', 'I'].filterMap C03.suffixOf := by decide
+/-- sidx `mergeParts` gives the merged part a timestamp range only when every input has one (F56 repaired);
+    `overlapsTimestampRange` as modelled -/
+theorem sidx_hull_tie : Generated.C03.sidxHullAllOrNone = true := rfl
+theorem sidx_overlaps_tie : Generated.C03.sidxOverlapsShape = true := rfl
 
 end Banyan.Tie.C03
